@@ -289,6 +289,15 @@ func (x *ttlCtx) infeasible(t *Trace) bool {
 		if x.listCall(e, "Remove") || x.listCall(e, "Init") {
 			pushed = false
 		}
+		if pushed && x.listCall(e, "Len") {
+			r := e.Res
+			if hasFact(facts, func(f Fact) bool {
+				z, isz := f.Y.intConst()
+				return f.X.Key() == r.Key() && isz && ((z == 0 && (f.Op == token.EQL || f.Op == token.LEQ)) || (z == 1 && f.Op == token.LSS))
+			}) {
+				return true // a list that was just pushed to is not empty
+			}
+		}
 		if pushed && (x.listCall(e, "Back") || x.listCall(e, "Front")) {
 			r := e.Res
 			if hasFact(facts, func(f Fact) bool { return f.X.Key() == r.Key() && f.Op == token.EQL && f.Y.isNilConst() }) {
